@@ -351,11 +351,14 @@ func (c *Conn) nextFrame() (int, MessageType, []byte, bool, bool, bool, error) {
 			bodyLen = int64(payloadLen)
 		}
 
+		// A control frame may sit between the fragments of a message; it is not
+		// part of it and has its own bound (maxControlFramePayloadSize, below).
+		isControl := (opcode == PingMessage) || (opcode == PongMessage) || (opcode == CloseMessage)
 		ml := 0
 		if c.message != nil {
 			ml = len(*c.message)
 		}
-		if c.isMessageTooLarge(ml + int(bodyLen)) {
+		if !isControl && c.isMessageTooLarge(ml+int(bodyLen)) {
 			return 0, 0, nil, false, false, false, ErrMessageTooLarge
 		}
 
